@@ -39,8 +39,9 @@ RULE = (
     "family under happysimulator/components has >= 1 builder; the family of a check = the component family. "
     "The real Simulation runs under EngineProbe (push probe, 'Time travel detected' log probe, per-instant "
     "delivery counter with cap max(20000, 200 x arrivals), total cap 400000). Non-trivial: library code emitted "
-    ">= 1 event strictly in the future or a library generator was resumed after a positive delay, or >= 1 process "
-    "parked on a SimFuture (blocked waiter), and the clock visited >= 2 instants. Distinct by hash of the case. "
+    ">= 1 event strictly in the future, or emitted after simulated time had passed since the first delivery, or a "
+    "library generator was resumed after a positive delay, or >= 1 process parked on a SimFuture (blocked waiter); "
+    "and the clock visited >= 2 instants. Distinct by hash of the case. "
     "Layer 2 (thorough): the repository test suite under the same probes, emitters/creators defined in test "
     "files ignored; only the emission and discard probes decide there (finiteness of a test's workload is unknown)."
 )
@@ -87,13 +88,30 @@ def run_scenario(name: str, seed: int, params: dict, res: Result | None = None, 
     cap = max(INSTANT_CAP_MIN, INSTANT_CAP_PER_ARRIVAL * max(1, sc.workload))
     probe = C07Probe(log_deliveries=False, instant_cap=cap, total_cap=TOTAL_CAP)
 
+    lib_exc = None
     with probe:
-        status = probe.run(sc.sim)
+        try:
+            status = probe.run(sc.sim)
+        except Exception as exc:  # noqa: BLE001
+            # An exception raised by library code on legitimate API use is a defect, but not C07's
+            # subject (the statement is about timestamps and frozen clocks): it is recorded as an
+            # observation, and what the probes saw up to that point is still judged.
+            from hsverif.worker import _classify_exception
+
+            origin, where = _classify_exception(exc)
+            if origin != "library":
+                raise
+            status = "exception"
+            lib_exc = f"{where}:{type(exc).__name__}"
+    if lib_exc is not None:
+        res.count("library_exceptions_seen")
+        res.seen("library_exception", f"{name} -> {lib_exc}")
     res.count("scenarios_run")
     res.count("deliveries_monitored", probe.n_deliveries)
     res.count("pushes_monitored", probe.n_pushes)
     res.count("parks_seen", probe.parks)
     res.count("future_library_emissions", probe.future_lib_emissions)
+    res.count("library_emissions_after_time_passed", probe.late_lib_emissions)
     res.count("library_generator_resumes_after_delay", probe.lib_resumes_after_delay)
     res.seen("scenario", name)
 
@@ -164,7 +182,12 @@ def run_scenario(name: str, seed: int, params: dict, res: Result | None = None, 
         res.count("budget_exhausted")
 
     # ---- non-triviality, measured
-    active = probe.future_lib_emissions > 0 or probe.lib_resumes_after_delay > 0 or probe.parks > 0
+    active = (
+        probe.future_lib_emissions > 0
+        or probe.lib_resumes_after_delay > 0
+        or probe.parks > 0
+        or probe.late_lib_emissions > 0
+    )
     res.nontrivial = bool(active and probe.instants >= 2)
     res.count("instants_visited", probe.instants)
     if probe.n_deliveries == 0 and not res.violations:
@@ -198,24 +221,44 @@ def run_case(case: dict) -> Result:
     return run_scenario(case["scenario"], case["seed"], case["params"])
 
 
+_KNOWN_KEYS = None
+
+
+def _known_keys() -> set:
+    global _KNOWN_KEYS
+    if _KNOWN_KEYS is None:
+        try:
+            from hsverif import findings as kf
+
+            _KNOWN_KEYS = {kf.key_of(e) for e in kf.for_property(PID) if e.get("status") == "known"}
+        except Exception:  # noqa: BLE001
+            _KNOWN_KEYS = set()
+    return _KNOWN_KEYS
+
+
 def _shrink(case: dict, still_fails) -> dict:
-    """Fewer arrivals, then default parameters where the failure survives."""
+    """Cheap shrinking (each probe re-runs the scenario): builder defaults first, then fewer arrivals.
+
+    A violation whose mechanism key is already a recorded known finding is not shrunk at all:
+    its pinned witness is the small case, and spin cases cost 20000 deliveries per re-run.
+    """
+    key = (getattr(still_fails, "__defaults__", None) or [None])[0]
+    if key is not None and tuple(key) in _known_keys():
+        return case
+    base = {"scenario": case["scenario"], "seed": case["seed"], "params": {}}
+    if still_fails(base):
+        return base
     cur = json.loads(json.dumps(case))
     arr = cur["params"].get("arrivals_ns") or []
-    while len(arr) > 2:
+    for _ in range(3):
+        if len(arr) <= 2:
+            break
         cand = json.loads(json.dumps(cur))
         cand["params"]["arrivals_ns"] = arr[: max(2, len(arr) // 2)]
-        if still_fails(cand):
-            cur = cand
-            arr = cur["params"]["arrivals_ns"]
-        else:
+        if not still_fails(cand):
             break
-    for key in ("x", "end", "hold", "cap", "lats"):
-        if key in cur["params"]:
-            cand = json.loads(json.dumps(cur))
-            del cand["params"][key]
-            if still_fails(cand):
-                cur = cand
+        cur = cand
+        arr = cur["params"]["arrivals_ns"]
     return cur
 
 
